@@ -9,6 +9,7 @@ CONSTANTS
   InvalidSel <- InvAll
   MaxBatches = 4
   MaxOps = 3
+  SymHooks = FALSE
   MinOps = 0
   MaxTotalOps = 12
   MaxInvalid = 1
